@@ -147,6 +147,12 @@ def shrink(check, case, target, max_runs=150, max_s=90.0):
             ok, _ = fails(pinned)
             if ok:
                 best = pinned
+    if hasattr(check, "trim"):
+        ok, r = fails(best)
+        if ok:
+            c = check.trim(json.loads(json.dumps(best)), r, target)
+            if c is not None and fails(c)[0]:
+                best = c
     for name, get, put in check.shrinkable(best):
         if not budget():
             break
@@ -161,10 +167,6 @@ def shrink(check, case, target, max_runs=150, max_s=90.0):
         small = ddmin(seq, test, budget)
         if len(small) < len(seq):
             put(best, small)
-    if hasattr(check, "trim"):
-        c = check.trim(json.loads(json.dumps(best)))
-        if c is not None and budget() and fails(c)[0]:
-            best = c
     ok, r = fails(best)
     if not ok:
         return None, "minimised case does not reproduce"
@@ -283,7 +285,7 @@ def finish(check, tier, seed, results, harness_errors, skipped, t0, verbose=True
     if new:
         # one report per distinct signature, smallest case first
         by_sig = collections.OrderedDict()
-        for r, v in new:
+        for r, v in sorted(new, key=lambda rv: (rv[0].get("sim_s", 0), rv[0]["index"])):
             by_sig.setdefault(vsig(v), (r, v))
         for s, (r, v) in list(by_sig.items())[:int(os.environ.get("VERIF_MAX_REPORTS", 0)) or getattr(check, "max_reports", 3)]:
             case = r["case"]
